@@ -13,6 +13,7 @@ import (
 	"strconv"
 	"strings"
 	"testing"
+	"time"
 
 	"github.com/google/mtail/internal/exporter"
 	"github.com/google/mtail/internal/metrics"
@@ -27,6 +28,11 @@ type c22Case struct {
 	StatsdPrefix   string    `json:"statsd_prefix"`
 	CollectdPrefix string    `json:"collectd_prefix"`
 	Hostname       string    `json:"hostname"`
+	// RealPush: the exporter is configured with all three push targets (peers
+	// the harness owns: graphite over TCP, collectd over a unix stream socket,
+	// statsd over UDP) and Exporter.PushMetrics is called: every peer must
+	// receive its own format's records
+	RealPush bool `json:"real_push,omitempty"`
 }
 
 // recordWriter keeps every Write as one record.
@@ -164,7 +170,23 @@ func runC22x(c c22Case, st *vstat.Stats) *vstat.Failure {
 	if c.Hostname != "" {
 		opts = append(opts, exporter.Hostname(c.Hostname))
 	}
+	peers := map[string]*c12Peer{}
+	if c.RealPush {
+		for _, f := range []string{"graphite", "collectd", "statsd"} {
+			p, err := newC12Peer(f, "none")
+			if err != nil {
+				return vstat.Failf("harness", "peer: %v", err)
+			}
+			defer p.close()
+			peers[f] = p
+			_ = flag.Set(c12SockFlag[f], p.addr)
+		}
+		_ = flag.Set("metric_push_write_deadline", "10s")
+	}
 	sc, err := hx.NewScraper(store, opts...)
+	for _, name := range c12SockFlag {
+		_ = flag.Set(name, "")
+	}
 	if err != nil {
 		return vstat.Failf("harness", "%v", err)
 	}
@@ -185,6 +207,11 @@ func runC22x(c c22Case, st *vstat.Stats) *vstat.Failure {
 	if f := c22CheckAll(sc, &c, host, st); f != nil {
 		return f
 	}
+	if c.RealPush {
+		if f := c22RealPush(sc, peers); f != nil {
+			return f
+		}
+	}
 	if c.Store.Phase2 == nil {
 		return nil
 	}
@@ -199,6 +226,62 @@ func runC22x(c c22Case, st *vstat.Stats) *vstat.Failure {
 		f.Sig = "second-export:" + f.Sig
 		f.Msg = "after changing the store and exporting again through the same exporter: " + f.Msg
 		return f
+	}
+	return nil
+}
+
+func splitLines(s string) []string {
+	if s == "" {
+		return nil
+	}
+	return strings.Split(strings.TrimSuffix(s, "\n"), "\n")
+}
+
+// c22RealPush: one PushMetrics to three reading peers; each must have received
+// exactly the records the push path writes for its format (already compared
+// with the model through the hook), nothing of another format, nothing twice.
+func c22RealPush(sc *hx.Scraper, peers map[string]*c12Peer) *vstat.Failure {
+	want := map[string][]string{}
+	for f := range peers {
+		w := &recordWriter{}
+		if err := sc.Exp.VerifWriteSocketMetrics(w, f); err != nil {
+			return vstat.Failf("push-error", "%s: %v", f, err)
+		}
+		for _, r := range w.recs {
+			if f == "statsd" {
+				want[f] = append(want[f], r) // one record per datagram
+			} else {
+				want[f] = append(want[f], splitLines(r)...)
+			}
+		}
+	}
+	done := make(chan struct{})
+	go func() { sc.Exp.PushMetrics(); close(done) }()
+	select {
+	case <-done:
+	case <-time.After(30 * time.Second):
+		return vstat.Failf("push-hangs", "PushMetrics to three reading peers did not return within 30 s")
+	}
+	for _, f := range []string{"graphite", "collectd", "statsd"} {
+		p := peers[f]
+		nbytes := 0
+		for _, l := range want[f] {
+			nbytes += len(l)
+		}
+		// stream peers: the connection has been read to its end; datagrams: all bytes are in
+		for dl := time.Now().Add(5 * time.Second); time.Now().Before(dl); time.Sleep(200 * time.Microsecond) {
+			if f == "statsd" && len(p.got()) >= nbytes || f != "statsd" && (p.finished.Load() > 0 || nbytes == 0 && p.accepted.Load() == 0) {
+				break
+			}
+		}
+		time.Sleep(300 * time.Microsecond) // anything sent twice would be right behind
+		got := splitLines(p.got())
+		if f == "statsd" {
+			got = p.datagrams()
+		}
+		if fl := diffMultiset("real-push:"+f, got, want[f]); fl != nil {
+			return fl
+		}
 	}
 	return nil
 }
@@ -294,12 +377,6 @@ func c22CheckAll(sc *hx.Scraper, cp *c22Case, host string, st *vstat.Stats) *vst
 			}
 		}
 		return want
-	}
-	splitLines := func(s string) []string {
-		if s == "" {
-			return nil
-		}
-		return strings.Split(strings.TrimSuffix(s, "\n"), "\n")
 	}
 	graphiteOK := c22LabelOK(&c.Store, " \n")
 	if graphiteOK {
@@ -509,7 +586,7 @@ func c22CheckAll(sc *hx.Scraper, cp *c22Case, host string, st *vstat.Stats) *vst
 }
 
 func TestC22(t *testing.T) {
-	st := vstat.New("C22", "stores of 0-5 metrics of every kind/type, 0-3 keys, up to 5 label sets with DISTINCT values and timestamps per label set, label values from a pool without whitespace (formats whose field separators occur in a value are skipped for that store), occasional non-finite floats, histograms with several label sets; random graphite/statsd/collectd prefixes, hostname, prog label on/off; every format's records compared as a multiset with records built by an independent formatter; non-trivial = a metric with >= 2 label sets whose values differ; distinct by the whole case")
+	st := vstat.New("C22", "stores of 0-5 metrics of every kind/type, 0-3 keys, up to 5 label sets with DISTINCT values and timestamps per label set, label values from a pool without whitespace (formats whose field separators occur in a value are skipped for that store), occasional non-finite floats, histograms with several label sets; random graphite/statsd/collectd prefixes, hostname, prog label on/off; every format's records compared as a multiset with records built by an independent formatter; one case in six also pushes over real sockets to three targets at once (each peer must receive its own format's records, once); non-trivial = a metric with >= 2 label sets whose values differ; distinct by the whole case")
 	st.Assumptions = []string{"expected records are produced by formatters written in the harness from the observed wire formats; one record per write for the push formats (captured through the build-tagged hook)", "statsd/collectd records of histograms are outside the statement and ignored"}
 	runRaw := func(raw json.RawMessage) *vstat.Failure {
 		c, err := vstat.JSON[c22Case](raw)
@@ -542,6 +619,10 @@ func TestC22(t *testing.T) {
 			}
 			if genPhase2(rt, &c.Store) {
 				st.Class("second-export-after-store-change")
+			}
+			if rapid.IntRange(0, 5).Draw(rt, "realpush") == 0 {
+				c.RealPush = true
+				st.Class("push-over-real-sockets-to-three-targets")
 			}
 			st.Eval()
 			nt := false
